@@ -139,8 +139,24 @@ def contents(c, is_mapping):
     return list(c.keys())
 
 
+def safe_repr(x):
+    """repr() that also works for data holding an int beyond CPython's
+    4300-digit limit for str() (the limit is lifted for this one call only:
+    the code under test must keep meeting it)."""
+    try:
+        return repr(x)
+    except ValueError:
+        import sys
+        old = sys.get_int_max_str_digits()
+        sys.set_int_max_str_digits(0)
+        try:
+            return repr(x)
+        finally:
+            sys.set_int_max_str_digits(old)
+
+
 def brief(x, n=200):
-    r = repr(x)
+    r = safe_repr(x)
     return r if len(r) <= n else r[:n] + '...'
 
 
